@@ -14,14 +14,19 @@ AttemptedFrom(e, from) ==
   LET idx == {i \in 1..Len(e.xfers) : e.xfers[i].from = from}
   IN SumOver([i \in idx |-> e.xfers[i].amt], idx)
 
-(* F6: `liquidate` chooses the partial path by comparing the *magnitude* of a signed margin
-   ratio with the liquidation fee; a position with a negative ratio whose magnitude exceeds the
-   fee is sent down the partial path, where margin - |realized pnl| - penalty underflows. *)
+(* F6: partial_liquidation_reply computes margin - |realized pnl| - penalty with unsigned checked
+   subtraction and fails when the stored margin cannot cover the realised share of the *spot*
+   loss plus the penalty.  `liquidate` sends a position there whenever the magnitude of its
+   (signed, spot-or-TWAP) margin ratio exceeds the liquidation fee and a partial ratio is set --
+   in particular every position with a sufficiently negative ratio. *)
 IsF6(S, e) ==
   /\ EngOp(e, "liquidate") /\ ~e.res.ok /\ S.eng.cfg.plr # 0
-  /\ LET lr == LiqRatio(S, e.tx.a.vamm, e.tx.a.trader)
-     IN lr.ok /\ lr.val < 0 /\ -lr.val > S.eng.cfg.liqfee
   /\ e.calls # <<>> /\ LastCall(e).msg = "reply_7" /\ ~LastCall(e).ok
+  /\ Len(e.swaps) = 1
+  /\ LET p == PosOf(S, e.tx.a.vamm, e.tx.a.trader)
+         u == PnL(S, e.tx.a.vamm, p, "spot")
+         out == IF e.swaps[1].type = "output" THEN e.swaps[1].quote ELSE e.swaps[1].base
+     IN u.ok /\ p.margin < Abs(SDiv(u.pnl * S.eng.cfg.plr, S.eng.cfg.D)) + (out * S.eng.cfg.liqfee) \div S.eng.cfg.D
 
 (* F5: the liquidation replies size withdraw() from the vault balance read when the reply runs,
    before the transfers queued by the same reply (remaining margin / the fund's half of the
